@@ -132,12 +132,36 @@ def r3_fatal_errors(ctx):
         "InvalidVariableIndex": "host API",
         "Timeout": "host-side wait helper",
     }
+    # ... and every core `Error` constructed in the executor entry points that the WORKER calls outside Executor::step and propagates with `?`
+    # (notify_*, spawn_process, heap extraction): inside step an error is the failing process's result, here it ends the worker loop
+    found_core = defaultdict(list)
+    with F.raw_mode():
+        croots = set()
+        for k, f in F.fns.items():
+            if k.startswith("quiver_environment::worker::Worker") and f.get("mir"):
+                for _bi, t in F.body(k).calls():
+                    c = t.get("callee") or ""
+                    if c.startswith(EXEC + "::") and c in F.fns and F.fns[c].get("mir") and not c.endswith("::step") and "error::Error" in (F.body(c).local_ty(0) or ""):
+                        croots.add(c)
+        creach = {k for k in F.reach(sorted(croots)) if k.startswith("quiver_core::") and F.fns[k].get("mir") and not F.fns[k].get("derived")}
+        for k in sorted(creach):
+            b = F.body(k)
+            for bi, si, s in agg_sites(b, "error::Error"):
+                found_core[(k.split("::{closure")[0], s["rv"]["variant"])].append(b.loc(bi, si))
     if os.environ.get("QV_CENSUS_GEN") == "1":
-        tbl = {"fatal": {}}
+        tbl = {"fatal": {}, "fatal_core": {}}
         for (k, v), locs in sorted(found.items()):
             tbl["fatal"]["%s|%s" % (k, v)] = {"ceiling": len(locs), "why": WHYV.get(v, "reviewed")}
+        for (k, v), locs in sorted(found_core.items()):
+            tbl["fatal_core"]["%s|%s" % (k, v)] = {"ceiling": len(locs), "why": "reviewed: an id / heap index that does not exist in this executor — ids come from the "
+                                                   "environment's own routing tables and heap indices from this executor's extraction (R-C06-6); not reachable from a program"}
         json.dump(tbl, open(path, "w"), indent=1)
         return
+    ctx.floor(R, "executor entry points whose error ends the worker", len(croots), 4)
+    census.reconcile(ctx, R, {k: [(loc, None) for loc in locs] for k, locs in found_core.items()}, table.get("fatal_core", {}),
+                     "Error::%s is constructed in an executor entry point the worker calls outside step() and propagates with `?`: if a program history can "
+                     "reach it (e.g. a completion arriving for a process that has already finished), the worker loop ends and every other process on it hangs",
+                     "%d constructions of Error::%s on a worker-fatal executor path, reviewed ceiling %d (%s)")
     n = sum(len(v) for v in found.values())
     census.reconcile(ctx, R, {k: [(loc, None) for loc in locs] for k, locs in found.items()}, table["fatal"],
                      "EnvironmentError::%s is constructed on a runtime path and is not in the reviewed table: if a program can reach it, the worker loop ends "
